@@ -21,7 +21,6 @@
 -/
 import Mhd.Proofs.ConnMem
 import Mhd.Proofs.ConnRead
-import Mhd.Proofs.ConnReadSync
 import Mhd.Props.C02
 import Mhd.Props.C08
 
@@ -100,106 +99,120 @@ example : WindowsInside (run (init 1024 1024 64)
 
 /-! ## Composition: the request-receiving half of a connection on ONE arena (`Mhd.ConnRead`)
 
-`ConnRead` runs the buffer layer above and the request-head parsers of C02 on the same arena
-(`cm.p.mem`): received bytes are stored at `read_buffer + read_buffer_offset`, the idle loop runs
-`get_request_line` (`rlScanner`, `processRequestTarget`), `get_req_headers` (`hsStep`, incl. the
-shift-back) and `check_and_grow_read_buffer_space`; every change of the window is an operation
-of the buffer layer (`consume`, `alloc` per request element, `shiftBack`, `grow`, `errRelease`).
-A parser access outside the buffer it is given is the phase `fault`, an operation the buffer layer
-refuses is the phase `refused`.  The theorems below hold for every arena size, every pool
-size / increment, every strictness level and every list of chunks (every byte stream × every
-segmentation).  Stage 1 (this section): request line and header section, up to
-MHD_CONNECTION_HEADERS_RECEIVED. -/
+`ConnRead` runs the buffer layer above, the request-head parsers of C02 and the chunk decoder of C03 on
+the same arena (`cm.p.mem`): received bytes are stored at `read_buffer + read_buffer_offset`, the idle loop
+runs `get_request_line` (`rlScanner`, `processRequestTarget`), `get_req_headers` (`hsStep`, incl. the
+shift-back), `process_request_body` (identity and chunked: `chunkAct` on the window contents, the
+application takes what the take pattern says, the rest is moved to the window start), the footers
+through the same header scanner, `check_and_grow_read_buffer_space`, and — the reply taken as sent —
+`connection_reset` with keep-alive (pool reset keeping the read-ahead), after which the next pipelined
+request is parsed from the arena base.  Every change of the window is an operation of the buffer layer
+(`consume`, `alloc` per request element, `shiftBack`, `bodyDrop`, `grow`, `shrinkRead`, `resetConn`,
+`errRelease`).  A parser access outside the buffer it is given is the phase `fault`, an operation the
+buffer layer refuses is the phase `refused`.  The theorems hold for every arena size, every pool
+size / increment, every strictness level, every list of chunks (every byte stream × every segmentation,
+the empty chunk being an idle round without data) and every `Cfg`: every framing decision of
+`parse_connection_headers`, every keep-alive decision, every take pattern of the application. -/
 
 open Mhd.ConnRead in
-/-- **(1) no fault, no refused operation, windows inside the arena — for every client byte stream.**
+/-- **(1) no fault, no refused operation, windows inside the arena — for every client byte stream,
+    over whole pipelined request sequences.**
     The proof establishes, state by state, the precondition of the parser that runs next
-    (`RLInvX` for the request line, `RLPost` ⇒ `processRequestTarget_no_fault`, `HSP.Inv` at the
-    start of and during the header section) and that each operation the parsers trigger is
-    accepted by the buffer layer (`Mhd.ConnRead.Safe`). -/
-theorem connread_no_fault (allocSize poolSize inc : Nat) (lvl : Int) (ha : allocSize % A = 0)
+    (`RLInvX` for the request line — also for the request line that starts in the read-ahead after a
+    reset —, `RLPost` ⇒ `processRequestTarget_no_fault`, `HSP.Inv`/`Inv2` at the start of and during
+    the header section, `HSP.Inv` for the footers, the chunk decoder's "at most the available bytes"),
+    and that each operation the parsers trigger is accepted by the buffer layer (`Mhd.ConnRead.Safe`). -/
+theorem connread_no_fault (cfg : Mhd.ConnRead.Cfg) (allocSize poolSize inc : Nat) (lvl : Int) (ha : allocSize % A = 0)
     (hs : allocSize < 2 ^ 62) (hp : poolSize ≤ allocSize) (chunks : List (List UInt8)) :
-    let x := Mhd.ConnRead.run (Mhd.ConnRead.init allocSize poolSize inc lvl) chunks
+    let x := Mhd.ConnRead.run cfg (Mhd.ConnRead.init allocSize poolSize inc lvl) chunks
     (∀ f, x.phase ≠ .fault f) ∧ (∀ n, x.phase ≠ .refused n) ∧ WindowsInside x.cm := by
   intro x
-  have h := run_safe inc chunks _ (init_safe allocSize poolSize inc lvl ha hs hp)
+  have h := run_safe inc cfg chunks _ (init_safe allocSize poolSize inc lvl ha hs hp)
   exact ⟨(safe_not_faulty h).1, (safe_not_faulty h).2, Mhd.ConnMem.windows_of_inv _ (safe_cminv h)⟩
 
 open Mhd.ConnRead in
-/-- **(2) the bytes the parsers may touch.**  While the connection is reading, the buffer of the
-    parser state is exactly the arena prefix `[0, read_buffer + read_buffer_offset)`: it ends at the
-    end of the received data, inside the read window `[read_buffer, read_buffer + read_buffer_size)`,
-    which lies below `pos ≤ size`; the read block starts at the arena base (`rbBase = 0`).  The
-    parsers' accessors fault on every index `≥ buf.size` and by (1) no fault occurs, so every index
-    read or written by the parsers is `< read_buffer + read_buffer_offset ≤ size`. -/
-theorem connread_parser_view_inside (allocSize poolSize inc : Nat) (lvl : Int) (ha : allocSize % A = 0)
-    (hs : allocSize < 2 ^ 62) (hp : poolSize ≤ allocSize) (chunks : List (List UInt8)) :
-    let x := Mhd.ConnRead.run (Mhd.ConnRead.init allocSize poolSize inc lvl) chunks
-    x.reading = true →
-    ∃ r, x.cm.rb = some r ∧ x.cm.rbBase = 0 ∧ x.cm.rbOff ≤ x.cm.rbSize ∧ r + x.cm.rbSize ≤ x.cm.p.pos ∧
-      x.cm.p.pos ≤ x.cm.p.size ∧
-      (match x.phase with
-       | .reqLine s => s.rb = r ∧ s.buf.size = r + x.cm.rbOff
-       | .headers s _ => s.rb = r ∧ s.buf.size = r + x.cm.rbOff
-       | _ => True) := by
-  intro x hr
-  exact safe_view (run_safe inc chunks _ (init_safe allocSize poolSize inc lvl ha hs hp)) hr
+/-- **(2) the bytes the parsers may touch.**  In every phase that carries a buffer (request line,
+    headers, body, footers, …) that buffer is exactly the arena prefix `[0, read_buffer +
+    read_buffer_offset)`: it ends at the end of the received data, inside the read window
+    `[read_buffer, read_buffer + read_buffer_size)`, which lies below `pos ≤ size`; the read block
+    starts at the arena base (`rbBase = 0`).  The parsers' accessors fault on every index `≥ buf.size`
+    (the chunk decoder is handed exactly the window contents) and by (1) no fault occurs, so every
+    index read or written is `< read_buffer + read_buffer_offset ≤ size`. -/
+theorem connread_parser_view_inside (cfg : Mhd.ConnRead.Cfg) (allocSize poolSize inc : Nat) (lvl : Int)
+    (ha : allocSize % A = 0) (hs : allocSize < 2 ^ 62) (hp : poolSize ≤ allocSize) (chunks : List (List UInt8)) :
+    let x := Mhd.ConnRead.run cfg (Mhd.ConnRead.init allocSize poolSize inc lvl) chunks
+    ∀ buf r, x.phase.view? = some (buf, r) →
+      x.cm.rb = some r ∧ x.cm.rbBase = 0 ∧ buf.size = r + x.cm.rbOff ∧ x.cm.rbOff ≤ x.cm.rbSize ∧
+      r + x.cm.rbSize ≤ x.cm.p.pos ∧ x.cm.p.pos ≤ x.cm.p.size := by
+  intro x buf r hv
+  exact safe_view (run_safe inc cfg chunks _ (init_safe allocSize poolSize inc lvl ha hs hp)) buf r hv
 
 open Mhd.ConnRead in
-/-- **(3) never stuck with a full buffer.**  After every chunk, a connection that still waits for
-    data has free space in its read window: when the window is full and the parsers made no
-    progress, `check_and_grow_read_buffer_space` either really enlarged it or moved the connection
+/-- **(3) never stuck with a full buffer.**  After every chunk, a connection that is going to read
+    (MHD_EVENT_LOOP_INFO_READ) has free space in its read window: when the window is full and nothing
+    could be processed, `check_and_grow_read_buffer_space` either really enlarged it, or handed the
+    turn to the application (body data it has not taken yet: PROCESS only), or moved the connection
     to the error phase (reply 413/414/431 + close).  Rests on the guard `if (0 == small_inc)
     small_inc = 1` of `try_grow_read_buffer` (fix F32), whose presence is the regenerated behaviour
     probe `Mhd.Gen.ConnMem.growMinOne`: without it the proof obligation fails
     (see `grow_stuck_without_guard`). -/
-theorem connread_full_buffer_is_error (allocSize poolSize inc : Nat) (lvl : Int) (ha : allocSize % A = 0)
-    (hs : allocSize < 2 ^ 62) (hp : poolSize ≤ allocSize) (hp2 : 2 ≤ poolSize)
+theorem connread_full_buffer_is_error (cfg : Mhd.ConnRead.Cfg) (allocSize poolSize inc : Nat) (lvl : Int)
+    (ha : allocSize % A = 0) (hs : allocSize < 2 ^ 62) (hp : poolSize ≤ allocSize) (hp2 : 2 ≤ poolSize)
     (chunks : List (List UInt8)) :
-    let x := Mhd.ConnRead.run (Mhd.ConnRead.init allocSize poolSize inc lvl) chunks
-    x.reading = true → x.cm.rbOff < x.cm.rbSize := by
+    let x := Mhd.ConnRead.run cfg (Mhd.ConnRead.init allocSize poolSize inc lvl) chunks
+    x.wantsRead = true → x.cm.rbOff < x.cm.rbSize := by
   intro x
   have f := Mhd.ConnMem.init_fields allocSize poolSize inc ha hs hp
-  exact run_live inc chunks _ (init_safe allocSize poolSize inc lvl ha hs hp)
+  exact run_live inc cfg chunks _ (init_safe allocSize poolSize inc lvl ha hs hp)
     (fun _ => by
       show (Mhd.ConnMem.init allocSize poolSize inc).rbOff < (Mhd.ConnMem.init allocSize poolSize inc).rbSize
       rw [f.2.1, f.2.2.2.2.1]; omega)
 
-open Mhd.ConnRead in
-/-- **(2b) one arena.**  In every state of every run the buffer the parser state carries
-    (request line, header section, finished header section) is exactly the arena prefix
-    `mem[0, read_buffer + read_buffer_offset)`, and the arena has the size of the pool: the
-    parsers of C02 and the buffer layer really work on the same bytes. -/
-theorem connread_one_arena (allocSize poolSize inc : Nat) (lvl : Int) (ha : allocSize % A = 0)
-    (hs : allocSize < 2 ^ 62) (hp : poolSize ≤ allocSize) (chunks : List (List UInt8)) :
-    let x := Mhd.ConnRead.run (Mhd.ConnRead.init allocSize poolSize inc lvl) chunks
-    ∀ b, x.phase.buf? = some b → x.cm.p.mem.length = x.cm.p.size ∧ x.cm.p.mem.take b.size = b.toList := by
-  intro x
-  exact run_sync inc chunks _ (init_safe allocSize poolSize inc lvl ha hs hp) (init_sync allocSize poolSize inc lvl)
+/-- a configuration for the examples: Content-Length 5 / chunked by a marker byte in the buffer is not
+    needed — the framing is given directly; the application takes at most 2 bytes per call -/
+def exCfg (fr : Mhd.ConnRead.Framing) : Mhd.ConnRead.Cfg :=
+  { frame := fun _ _ => fr, keepAlive := fun _ _ => true, take := fun _ _ => 2 }
 
-/-- Non-vacuity of (2b): after `GET / HT` (both separators already NUL-terminated by the parser) the arena starts with these eight bytes. -/
+/-- Non-vacuity, stage 1: a complete head at level 0 on a 1024-byte arena, in three chunks
+    (`GET /a?x=1 HTT`, `P/1.1\r\nHost: h\r\nA: `, `b\r\n\r\nXY`), framing decision "stop": the run ends in
+    HEADERS_RECEIVED with three elements, the window moved back by 3 bytes over the header tail, two
+    unread bytes in it.  (`decide +kernel`: the composed model is evaluated by the kernel — a test of the
+    example, not a proof step of any theorem.) -/
 example :
-    (let x := Mhd.ConnRead.run (Mhd.ConnRead.init 128 128 16 1) [[71, 69, 84, 32], [47, 32, 72, 84]]
-     x.cm.p.mem.take 8 == [71, 69, 84, 0, 47, 0, 72, 84] && x.phase.buf?.isSome) = true := by decide +kernel
-
-/-- Non-vacuity of (1)–(3), a complete head at level 0 on a 1024-byte arena, in three chunks
-    (`GET /a?x=1 HTT`, `P/1.1\r\nHost: h\r\nA: `, `b\r\n\r\nXY`): the run ends in HEADERS_RECEIVED with
-    three elements (one query argument, two field lines), the window moved back by 3 bytes over the
-    header tail, two unread bytes in it.  (`decide +kernel`: the composed model is evaluated by the
-    kernel — a test of the example, not a proof step of any theorem.) -/
-example :
-    (let x := Mhd.ConnRead.run (Mhd.ConnRead.init 1024 1024 64 0)
+    (let x := Mhd.ConnRead.run (exCfg .stop) (Mhd.ConnRead.init 1024 1024 64 0)
         [[71, 69, 84, 32, 47, 97, 63, 120, 61, 49, 32, 72, 84, 84],
          [80, 47, 49, 46, 49, 13, 10, 72, 111, 115, 116, 58, 32, 104, 13, 10, 65, 58, 32],
          [98, 13, 10, 13, 10, 88, 89]]
      match x.phase with
-     | .headersDone h => (h.elems.length, h.shifted, x.cm.rb, x.cm.rbOff) == (3, 3, some 35, 2)
+     | .headersDone h _ => (h.elems.length, h.shifted, x.cm.rb, x.cm.rbOff) == (3, 3, some 35, 2)
+     | _ => false) = true := by decide +kernel
+
+/-- Non-vacuity, stage 2 (identity body): `P / HTTP/1.1\r\n\r\n` + `abcde` + `XY`, Content-Length 5, the
+    application takes 2 bytes per call: after the first chunk (head + `abc`) one byte waits in the
+    window; two idle rounds and the rest later the request is complete and — keep-alive — the
+    connection is reset with the read-ahead `XY` at the arena base as the start of the next request. -/
+example :
+    (let x := Mhd.ConnRead.run (exCfg (.len 5)) (Mhd.ConnRead.init 256 256 16 0)
+        [[80, 32, 47, 32, 72, 84, 84, 80, 47, 49, 46, 49, 13, 10, 13, 10, 97, 98, 99], [], [100, 101, 88, 89], [], []]
+     match x.phase with
+     | .reqLine s => (s.buf.toList, x.cm.rb, x.cm.rbOff, x.cm.rbSize) == ([88, 89], some 0, 2, 128)
+     | _ => false) = true := by decide +kernel
+
+/-- Non-vacuity, stage 2 (chunked body + trailer): `3\r\nabc\r\n0\r\nT: v\r\n\r\n` after the head, then a second
+    pipelined request line start `GET`: the chunks are decoded inside the window, the footer line goes
+    through the header scanner, the connection is reset and `GET` is the read-ahead. -/
+example :
+    (let x := Mhd.ConnRead.run (exCfg .chunked) (Mhd.ConnRead.init 256 256 16 0)
+        [[80, 32, 47, 32, 72, 84, 84, 80, 47, 49, 46, 49, 13, 10, 13, 10, 51, 13, 10, 97, 98],
+         [99, 13, 10, 48, 13, 10, 84, 58, 32, 118, 13, 10, 13, 10, 71, 69, 84], [], []]
+     match x.phase with
+     | .reqLine s => (s.buf.toList, x.cm.rbOff) == ([71, 69, 84], 3)
      | _ => false) = true := by decide +kernel
 
 /-- Non-vacuity of the error outcome: a request line longer than anything the 64-byte arena can
     hold ends in the error phase `noSpace` (reply + close), not in a stuck state. -/
 example :
-    (let x := Mhd.ConnRead.run (Mhd.ConnRead.init 64 64 16 0) [List.replicate 200 65]
+    (let x := Mhd.ConnRead.run (exCfg .none) (Mhd.ConnRead.init 64 64 16 0) [List.replicate 200 65]
      match x.phase with
      | .error .noSpace => true
      | _ => false) = true := by decide +kernel
@@ -216,7 +229,7 @@ theorem grow_stuck_without_guard :
 /-- the same 32 bytes through the composed model of the code as it is: the window grows, the connection keeps
     reading with one free byte -/
 example :
-    (let x := Mhd.ConnRead.run (Mhd.ConnRead.init 64 64 7 0) [List.replicate 32 65]
+    (let x := Mhd.ConnRead.run (exCfg .none) (Mhd.ConnRead.init 64 64 7 0) [List.replicate 32 65]
      (x.reading, x.cm.rbOff, x.cm.rbSize)) = (true, 32, 33) := by decide +kernel
 
 end Mhd.C01
